@@ -91,7 +91,7 @@ instance : Carrier Float where
   vf := { log := Float.log, sqrt := Float.sqrt, pow10 := fun x => Float.pow 10.0 x, ln10 := Float.log 10.0 }
   gf := { eig := fun i m => -2.0 + 2.0 * Float.cos (Float.ofNat i * piF / Float.ofNat m),
           eig0 := 1e-15, sqrt := Float.sqrt, sqrtw := fun x => Float.pow x 0.5,
-          pow10 := fun x => Float.pow 10.0 x, big := 1e15, c1 := 1.4826, c2 := 4.685 }
+          pow10 := fun x => Float.pow 10.0 x, big := 1e15, c1 := 1.4826, c2 := 4.685, madtol := 1e-9 }
   mkf := { sqrt := Float.sqrt, erf := fun x => x, half := 0.5, zcrit := 1.959963984540054, ofInt := Float.ofInt }
   rsqrt x := Float.pow x (-0.5)
   eps := 1e-8
@@ -105,7 +105,7 @@ instance : Carrier Rat where
   round x := (Py.roundHalfEvenRat x : Rat)
   vf := { log := fun x => x, sqrt := fun x => x, pow10 := fun x => x, ln10 := 1 }
   gf := { eig := fun _ _ => 0, eig0 := 0, sqrt := fun x => x, sqrtw := fun x => x, pow10 := fun x => x,
-          big := 1000000000000000, c1 := (7413 : Rat) / 5000, c2 := (937 : Rat) / 200 }
+          big := 1000000000000000, c1 := (7413 : Rat) / 5000, c2 := (937 : Rat) / 200, madtol := (1 : Rat) / 1000000000 }
   mkf := { sqrt := fun x => x, erf := fun x => x, half := (1 : Rat) / 2, zcrit := 2, ofInt := fun i => (i : Rat) }
   rsqrt x := x
   eps := (1 : Rat) / 100000000
